@@ -653,6 +653,36 @@ func assertFactOf(g guard) (assertFact, bool) {
 	return assertFact{}, false
 }
 
+// assertAlwaysHolds: x is an interface value made from a value of a concrete type that has the asserted
+// type (implements the asserted interface, or is the asserted concrete type): `_, ok := x.(T)` cannot fail,
+// and the value it yields is never the nil interface.
+func assertAlwaysHolds(x ssa.Value, t types.Type) bool {
+	for {
+		switch v := x.(type) {
+		case *ssa.ChangeInterface:
+			x = v.X
+			continue
+		case *ssa.MakeInterface:
+			ct := v.X.Type()
+			if it, ok := t.Underlying().(*types.Interface); ok {
+				return types.Implements(ct, it)
+			}
+			return types.Identical(ct, t)
+		}
+		return false
+	}
+}
+
+// infeasibleGuards: some guard in gs says that a type assertion failed which cannot fail.
+func infeasibleGuards(gs []guard) bool {
+	for _, g := range gs {
+		if f, ok := assertFactOf(g); ok && !f.holds && assertAlwaysHolds(f.x, f.t) {
+			return true
+		}
+	}
+	return false
+}
+
 func assertFacts(b *ssa.BasicBlock) []assertFact {
 	var out []assertFact
 	for _, g := range blockGuards(b) {
@@ -817,6 +847,89 @@ func resolveCell(v ssa.Value) ssa.Value {
 			return v
 		}
 		v = found
+	}
+	return v
+}
+
+// structMember resolves a read of member i of a local struct to the value that was put there: the struct
+// lives in a local cell that is written once (a composite literal stores its members one by one; a copy
+// stores the whole value), or is an SSA value loaded from such a cell. nil when the member cannot be traced
+// to a single definition.
+func structMember(x ssa.Value, i int, depth int) ssa.Value {
+	if depth > 8 {
+		return nil
+	}
+	switch t := x.(type) {
+	case *ssa.UnOp:
+		if t.Op != token.MUL {
+			return nil
+		}
+		al, ok := t.X.(*ssa.Alloc)
+		if !ok {
+			return nil
+		}
+		return structCellMember(al, i, depth+1)
+	case *ssa.Alloc:
+		return structCellMember(t, i, depth+1)
+	}
+	return nil
+}
+
+func structCellMember(al *ssa.Alloc, i int, depth int) ssa.Value {
+	if al.Referrers() == nil {
+		return nil
+	}
+	var whole []ssa.Value
+	var member []ssa.Value
+	for _, ref := range *al.Referrers() {
+		switch t := ref.(type) {
+		case *ssa.Store:
+			if t.Addr == ssa.Value(al) {
+				whole = append(whole, t.Val)
+			}
+		case *ssa.FieldAddr:
+			if t.Field != i || t.Referrers() == nil {
+				continue
+			}
+			for _, r2 := range *t.Referrers() {
+				if st, ok := r2.(*ssa.Store); ok && st.Addr == ssa.Value(t) {
+					member = append(member, st.Val)
+				}
+			}
+		}
+	}
+	switch {
+	case len(whole) == 0 && len(member) == 1:
+		return member[0]
+	case len(whole) == 1 && len(member) == 0:
+		return structMember(whole[0], i, depth+1)
+	}
+	return nil
+}
+
+// resolveLocal follows a value through local cells and local structs to the value that was stored: loads of
+// a spilled variable (resolveCell), reads of a member of a local struct (structMember).
+func resolveLocal(v ssa.Value) ssa.Value {
+	for k := 0; k < 10; k++ {
+		w := resolveCell(v)
+		switch t := w.(type) {
+		case *ssa.UnOp:
+			if t.Op == token.MUL {
+				if fa, ok := t.X.(*ssa.FieldAddr); ok {
+					if m := structMember(fa.X, fa.Field, 0); m != nil {
+						w = m
+					}
+				}
+			}
+		case *ssa.Field:
+			if m := structMember(t.X, t.Field, 0); m != nil {
+				w = m
+			}
+		}
+		if w == v {
+			return v
+		}
+		v = w
 	}
 	return v
 }
